@@ -278,6 +278,26 @@ def run(tier, seed, t0):
                     viols.append(("abi:c-program-using-dlopen:%s" % fl, {"exit_status": rc2, "output": o2[-2500:]}, None))
                 else:
                     samples.append({"dlopen_program_" + fl: [re.sub(r"/\S*/libtfhe-", "libtfhe-", ln) for ln in steps[:3]]})
+        # (vi) a C99 program made of two source files that both include the public headers, linked against each variant
+        for fl, bes in (("optim", vbuild.BACKENDS), ("debug", ["nayuki-portable"])):
+            for be in bes:
+                if (fl, be) not in libs:
+                    continue
+                exe2 = os.path.join(tmp, "c20_multi_%s_%s" % (fl, be))
+                lib = libs[(fl, be)]
+                rc, o = sh("gcc -std=c99 -O0 -Wall -I%s -c %s -o %s/ma.o && gcc -std=c99 -O2 -Wall -I%s -c %s -o %s/mb.o && gcc %s/ma.o %s/mb.o %s -Wl,-rpath,%s -o %s -lstdc++ -lm -lpthread %s"
+                           % (inc, os.path.join(cdir0, "c20_multi_a.c"), tmp, inc, os.path.join(cdir0, "c20_multi_b.c"), tmp, tmp, tmp, lib, os.path.dirname(lib), exe2,
+                              "-lfftw3" if be == "fftw" else ""))
+                decisions += 1
+                cells["multi-file-c-program:%s:%s" % (fl, be)] = 1
+                if rc:
+                    viols.append(("abi:multi-file-c-program-does-not-link:%s:%s" % (fl, be), {"output": o[-1500:]}, None))
+                    continue
+                if be in ("spqlios-fma", "nayuki-portable"):
+                    rc2, o2 = sh(exe2)
+                    decisions += 1
+                    if rc2:
+                        viols.append(("abi:multi-file-c-program-wrong-result:%s:%s" % (fl, be), {"exit_status": rc2, "output": o2[-800:]}, None))
     finally:
         subprocess.run("rm -rf %s" % tmp, shell=True)
     # (iv) cross-language object observation on every variant (optim) and two debug variants
